@@ -27,6 +27,9 @@ accepted document (`plan measure d = .ok pl`, `Proofs/EncodeLift.lean`)
                         `max(1, int(width / (cum[j] − cum[j−1])) + 1)` lines, its `str()` measured at the font and size the
                         processed attributes hold at (row, `j`) — every displayed column against ITS OWN width, font and size,
                         whichever columns left the table — and the row's data lines are the largest of these (and 1);
+* `C04enc_cell_lines_unique`  that count is a function of the cell alone (its text, the font and size at its own row and
+                        column, its own width): the same text in one column at two rows with different sizes has two
+                        heights (`exDocRowSizes`: per-row sizes as tuple / n×1 matrix / short cyclic tuple);
 * `C04enc_columns_out`  which columns leave the table: the subline_by columns always, the page_by columns unless
                         `new_page` with `pageby_row = "column"` (then they stay and are measured like any other column);
 * `C04enc_meta`         the three fields `_assign_pages` reads for row `i`: group start = `str()` key differs from the
@@ -139,6 +142,32 @@ theorem C04enc_own_width (measure : Measure) (d : Doc) (pl : Plan) (hp : plan me
     simpa only [Nat.zero_add] using h
   · have h := Proofs.EncodeOwnWidth.dataLines_attained cells pl.p.cum 0 0 (1, false) _ hdl
     simpa only [Nat.zero_add] using h
+
+/-- **the line count of a cell is a function of the cell alone**: of its text, of the font and size the processed
+attributes hold at ITS OWN (row, displayed column) and of its own column width (`CellLines` has one solution wherever the
+font attribute is a font number or absent — anything else the encoder refuses with `ValueError`).  With `C04enc_own_width`:
+the same text in the same column at two rows counts the lines of each row's own font and size, whatever was counted for
+another row — so `text_font_size` / `text_font` that vary BY ROW (tuple, column matrix, full matrix, a short value repeated
+cyclically: all of them are `ilocV` at (row, column)) give one text several heights in one column. -/
+theorem C04enc_cell_lines_unique (measure : Measure) (A : TblAttrsOf MatV) (r k : Nat) (cell : Option Str) (cw : Rat)
+    (l l' : Nat) (hf : ∀ fv, ilocV A.font r k = .ok fv → fv = .null ∨ ∃ i, fv = .int i)
+    (h : CellLines measure A r k cell cw l) (h' : CellLines measure A r k cell cw l') : l = l' := by
+  obtain ⟨sv, fv, size, font, w, hsv, hfv, hs0, hs1, hf0, hf1, hm, _, hl⟩ := h
+  obtain ⟨sv', fv', size', font', w', hsv', hfv', hs0', hs1', hf0', hf1', hm', _, hl'⟩ := h'
+  have e1 : sv' = sv := by rw [hsv] at hsv'; cases hsv'; rfl
+  have e2 : fv' = fv := by rw [hfv] at hfv'; cases hfv'; rfl
+  subst e1 e2
+  have es : size' = size := by
+    by_cases hn : sv' = .null
+    · rw [hs0 hn, hs0' hn]
+    · have a := hs1 hn; have b := hs1' hn; rw [a] at b; cases b; rfl
+  have ef : font' = font := by
+    rcases hf fv' hfv with hn | ⟨i, hi⟩
+    · rw [hf0 hn, hf0' hn]
+    · rw [hf1 i hi, hf1' i hi]
+  subst es ef
+  rw [hm] at hm'; cases hm'
+  rw [hl, hl']
 
 /-- **which columns leave the table**: the subline_by columns always; the page_by columns unless `new_page` is set and
 `pageby_row` is `"column"` — then they stay in the table and `C04enc_own_width` measures them like every other column -/
@@ -546,5 +575,44 @@ example :
          pl.ld.pageNums == [1, 1, 1, 1, 1, 2, 2, 2, 2, 2]
      | .error _ => false) = true := by
   refine ⟨by decide +kernel, by decide +kernel⟩
+
+open Props.C01enc in
+/-- two columns `i`, `t` (relative widths 1 : 3 of 6.25 in: `t` is 4.6875 in wide), twelve rows that ALL show the same text
+`T` in column `t`, `text_font_size = sizes` (one value per ROW when it is a tuple / an n×1 matrix); `nrow = 11`, one
+column-header row reserved -/
+def exDocRowSizes (sizes : Attr) : Doc :=
+  { exDoc [1, 3] with
+    cols := ["i".toList, "t".toList],
+    rows := (List.range 12).map fun _ => [some "R".toList, some "T".toList],
+    page := { exPage with nrow := 11 }, title := none, footnote := none, source := none,
+    headers := [some { text := some ["I".toList, "T".toList], colRelWidth := none, attrs := exTbl }],
+    body := { (exDoc [1, 3]).body with attrs := { exTbl with size := sizes } } }
+
+/-- `T` is 0.3 in wide per point of font size (2.7 in at 9pt, 5.4 in at 18pt), everything else 0.1 in -/
+def exMeasureSized : Measure := fun s _ z => if s == "T".toList then some (z * 3 / 10) else some (1 / 10)
+
+open Props.C01enc in
+/-- the same text in one column has the height of ITS OWN ROW's font size: four rows at 9pt (one line each) and eight at
+18pt (two lines each) — page 1 holds `4·1 + 3·2 = 10` lines, the other five rows (10 lines) stand on page 2; the same sizes
+spelled as an n×1 matrix paginate alike; a two-element tuple is repeated cyclically down the rows (`1 + 2 + 1 + 2 + …`:
+six rows are 9 lines, the seventh — one line — still fits); and with one size for the whole table all twelve rows are one
+line high, ten on page 1 -/
+example :
+    (match plan exMeasureSized (exDocRowSizes (.tuple (List.replicate 4 (.int 9) ++ List.replicate 8 (.int 18)))) with
+     | .ok pl => (rowIns pl.ld).map (·.dataRows) == [1, 1, 1, 1, 2, 2, 2, 2, 2, 2, 2, 2] &&
+         pl.ld.pageNums == [1, 1, 1, 1, 1, 1, 1, 2, 2, 2, 2, 2]
+     | .error _ => false) = true ∧
+    (match plan exMeasureSized
+        (exDocRowSizes (.nested (List.replicate 4 [.int 9] ++ List.replicate 8 [.int 18]))) with
+     | .ok pl => pl.ld.pageNums == [1, 1, 1, 1, 1, 1, 1, 2, 2, 2, 2, 2]
+     | .error _ => false) = true ∧
+    (match plan exMeasureSized (exDocRowSizes (.tuple [.int 9, .int 18])) with
+     | .ok pl => (rowIns pl.ld).map (·.dataRows) == [1, 2, 1, 2, 1, 2, 1, 2, 1, 2, 1, 2] &&
+         pl.ld.pageNums == [1, 1, 1, 1, 1, 1, 1, 2, 2, 2, 2, 2]
+     | .error _ => false) = true ∧
+    (match plan exMeasureSized (exDocRowSizes (.scalar (.int 9))) with
+     | .ok pl => pl.ld.pageNums == [1, 1, 1, 1, 1, 1, 1, 1, 1, 1, 2, 2]
+     | .error _ => false) = true := by
+  refine ⟨by decide +kernel, by decide +kernel, by decide +kernel, by decide +kernel⟩
 
 end Props.C04enc
